@@ -1,9 +1,9 @@
 package rules
 
 import (
-	"go/token"
 	"fmt"
 	"go/constant"
+	"go/token"
 	"go/types"
 	"sort"
 	"strings"
@@ -547,8 +547,26 @@ func (c *Ctx) checkWalkComplete(W *ssa.Function, fetch map[*ssa.Function]bool) {
 		}
 	}
 	if header == nil {
+		// W may be the memoising front of the function that holds the loop (length() -> countEntries())
+		if D, why := c.walkCoreOf(W); D != nil {
+			if len(why) > 0 {
+				r.Violate("R6.3", key, pos, "the walk is delegated to "+core.FuncName(D)+", but "+uniqJoin(why))
+				return
+			}
+			c.checkWalkComplete(D, fetch)
+			return
+		}
 		r.Violate("R6.3", key, pos, "no loop over the receiver's links driven by the links iterator's Done() (or by an index running over their Length())")
 		return
+	}
+	isFront := map[*ssa.Function]bool{}
+	for _, e := range c.G.In[W] {
+		if e.Caller == W || isFront[e.Caller] {
+			continue
+		}
+		if D, why := c.walkCoreOf(e.Caller); D == W && len(why) == 0 {
+			isFront[e.Caller] = true
+		}
 	}
 	iff := core.BlockIf(header)
 	exitIdx := 0 // successor taken when Done() is true
@@ -785,7 +803,7 @@ func (c *Ctx) checkWalkComplete(W *ssa.Function, fetch map[*ssa.Function]bool) {
 				if !ok || loadCall == nil {
 					continue
 				}
-				if call.Call.StaticCallee() == W && len(call.Call.Args) > 0 && call.Call.Args[0] == ssa.Value(extractOf(loadCall, 0)) {
+				if (call.Call.StaticCallee() == W || isFront[call.Call.StaticCallee()]) && len(call.Call.Args) > 0 && call.Call.Args[0] == ssa.Value(extractOf(loadCall, 0)) {
 					if recCall == nil || call.Pos() < recCall.Pos() {
 						recCall = call
 					}
@@ -1040,4 +1058,142 @@ func (c *Ctx) checkPreloadErrorFlow() {
 		}
 	}
 	r.Floor("R6.8", n, 10)
+}
+
+// walkCoreOf recognises F as a memoising front of a walk function D: F has the same receiver type and results as D, calls
+// D once on its own receiver, reports D's error, and every return of F that may carry a nil error either comes after D
+// succeeded and returns D's value, or returns a memo field that is written only after D succeeded (in F, or through a
+// setter method called only from there). Returns D and the reasons why F is not a faithful front (empty when it is).
+func (c *Ctx) walkCoreOf(F *ssa.Function) (*ssa.Function, []string) {
+	if F == nil || len(F.Blocks) == 0 || len(F.Params) == 0 || F.Signature.Recv() == nil {
+		return nil, nil
+	}
+	errIdx := core.ErrResultIndex(F.Signature)
+	if errIdx < 0 {
+		return nil, nil
+	}
+	var dcall *ssa.Call
+	for _, ci := range core.CallsIn(F) {
+		call, ok := ci.(*ssa.Call)
+		if !ok {
+			continue
+		}
+		D := call.Call.StaticCallee()
+		if D == nil || D == F || len(D.Blocks) == 0 || core.RecvNamed(D) == nil || core.RecvNamed(D) != core.RecvNamed(F) {
+			continue
+		}
+		if len(call.Call.Args) == 0 || call.Call.Args[0] != ssa.Value(F.Params[0]) || !types.Identical(D.Signature.Results(), F.Signature.Results()) {
+			continue
+		}
+		if dcall != nil {
+			return nil, nil
+		}
+		dcall = call
+	}
+	if dcall == nil {
+		return nil, nil
+	}
+	D := dcall.Call.StaticCallee()
+	var why []string
+	derr := extractOf(dcall, errIdx)
+	// the success edge of D's error test
+	var okIf *ssa.BasicBlock
+	var okSucc *ssa.BasicBlock
+	for _, b := range F.Blocks {
+		iff := core.BlockIf(b)
+		if iff == nil {
+			continue
+		}
+		if x, trueMeansNil, ok := core.NilCmp(iff.Cond); ok && derr != nil && x == ssa.Value(derr) {
+			okIf = b
+			if trueMeansNil {
+				okSucc = b.Succs[0]
+			} else {
+				okSucc = b.Succs[1]
+			}
+		}
+	}
+	after := func(b *ssa.BasicBlock) bool {
+		return okIf != nil && (b == okSucc && len(okSucc.Preds) == 1 || core.EdgeDominates(okIf, okSucc, b))
+	}
+	for _, p := range mustPropagate(F, dcall) {
+		why = append(why, p)
+	}
+	for _, ret := range core.Returns(F) {
+		rr := core.ResolvedResults(ret)
+		if core.ErrKnownNonNil(rr[errIdx], nil) || rr[errIdx] == ssa.Value(derr) && !after(ret.Block()) && okIf != nil {
+			continue
+		}
+		if rr[errIdx] == ssa.Value(derr) && okIf == nil {
+			// `return D()`-style forwarding: value and error of the same call
+			if rr[0] == ssa.Value(extractOf(dcall, 0)) {
+				continue
+			}
+		}
+		if !core.IsNilConst(rr[errIdx]) && core.GuardedBy(ret.Block(), func(cond ssa.Value) (bool, bool) {
+			x, trueMeansNil, ok := core.NilCmp(cond)
+			if !ok || x != rr[errIdx] {
+				return false, false
+			}
+			return !trueMeansNil, true
+		}) {
+			continue
+		}
+		if after(ret.Block()) {
+			if rr[0] != ssa.Value(extractOf(dcall, 0)) {
+				why = append(why, fmt.Sprintf("the return at %s does not hand on the walk's result", c.P.Pos(ret.Pos())))
+			}
+			continue
+		}
+		fv := c.memoFieldOf(F, rr[0])
+		if fv == nil {
+			fv = c.memoFieldViaGetter(F, rr[0])
+		}
+		if fv == nil {
+			why = append(why, fmt.Sprintf("the nil-error return at %s bypasses the walk and does not return a memo", c.P.Pos(ret.Pos())))
+			continue
+		}
+		for _, fn := range c.G.Funcs() {
+			for _, b := range fn.Blocks {
+				for _, ins := range b.Instrs {
+					st, ok := ins.(*ssa.Store)
+					if !ok {
+						continue
+					}
+					_, sf, ok := core.FieldAddrOf(st.Addr)
+					if !ok || sf != fv {
+						continue
+					}
+					if _, fresh := rootObject(st.Addr); fresh {
+						continue
+					}
+					if fn == F && after(st.Block()) {
+						continue
+					}
+					if fn != F && core.RecvNamed(fn) == core.RecvNamed(F) && fn.Parent() == nil {
+						okSetter := len(c.G.In[fn]) > 0
+						for _, e := range c.G.In[fn] {
+							if e.Caller != F || e.Site == nil || !after(e.Site.Block()) {
+								okSetter = false
+							}
+						}
+						if okSetter {
+							continue
+						}
+					}
+					why = append(why, fmt.Sprintf("memo field %s is written at %s before the walk is complete", fv.Name(), c.P.Pos(st.Pos())))
+				}
+			}
+		}
+	}
+	return D, why
+}
+
+func mustPropagate(fn *ssa.Function, call *ssa.Call) []string {
+	probs, _, _ := core.CheckErrPropagated(fn, call)
+	var out []string
+	for _, p := range probs {
+		out = append(out, "the walk's error is not reported: "+p.What)
+	}
+	return out
 }
